@@ -3,7 +3,7 @@
    it); after every operation the harness observes every address. *)
 From Coq Require Import List Arith Bool.
 Import ListNotations.
-From NV Require Import Crash.Model Crash.Check Crash.Resurrect.
+From NV Require Import Crash.Model Crash.Check Crash.RModel.
 
 Definition hhop := (op * nat * bool)%type.   (* operation, cut index (0 = none), cut after the call *)
 
